@@ -79,6 +79,16 @@ CLAIMED = {
         design_ref="DESIGN.md section 5, C02",
         technique="Coq proof (uniqueness and no-spurious for all parameters) plus planted-ground-truth correspondence for completeness (partial)",
         note=NOTE_COMMON + " Partial: completeness is validated by correspondence, not proved."),
+    "C03": dict(
+        text="Theorem (all inputs): the list of reported atom groups is independent of the random choice among symmetry-equivalent orderings, "
+             "and depends on the quaternion construction only through which candidate groups contain an accepted ordering. PARTIAL: invariance "
+             "under shift+wrap, atom permutation, rigid pattern motion, hint triples (incl. index 0), seeds and supercells (a*b*c times the "
+             "count, every occurrence once per image) is validated on every run: each representation is a correspondence case whose expected "
+             "groups are the planted ones after renaming, run on the implementation and on the Coq model; a proof would need C02's open "
+             "completeness clause. Thorough tier adds implementation-vs-implementation runs on the repository's MOF files (a test).",
+        design_ref="DESIGN.md section 5, C03",
+        technique="Coq proof of independence from the random choice; metamorphic correspondence (implementation and model vs renamed planted ground truth) for the other representations (partial)",
+        note=NOTE_COMMON + " Partial: only RNG independence is a theorem."),
 }
 
 PENDING_REASON = "no check registered yet: the Coq model and correspondence for this property are still being built (see DESIGN.md section 7 work order); nothing is claimed"
